@@ -7,7 +7,7 @@ CONSTANTS
   Configs <- CfgSwitchesQuick
   MaxDay = 1
   Acts = {"emit", "mainemit", "comlog"}
-  InitLevels = {99, 15, 20}
+  InitLevels = {99, 15}
   Depth = 1
 CONSTRAINT Bound
 INVARIANT Emit1
